@@ -145,9 +145,12 @@ structure FrameOut where
   st : AppState
   log : List Inv
   deliveries : List Delivery
+  /-- deliveries made by the time the systems ordered after the crate's set (and `Update`) run -/
+  preCount : Nat
 
 /-- one `App::update()`: advance virtual time, run the crate's system on this frame's raw input, apply its
-    command queue with the observers' reactions, then the `Update`-stage operations issued through commands. -/
+    command queue with the observers' reactions (sync point before anything ordered after the set), then the
+    `Update`-stage operations issued through commands. -/
 def frame (su : Setup) (st : AppState) (raw : RawInput) (t : Tick) (reacts : Reactions) (posts : List Op)
     (fuel : Nat) : Option FrameOut :=
   let st := { st with tick := t }
@@ -156,8 +159,11 @@ def frame (su : Setup) (st : AppState) (raw : RawInput) (t : Tick) (reacts : Rea
   | none => none
   | some o =>
     let st := { st with reg := o.reg }
-    match runQueue su reacts fuel (o.deliveries.map QItem.deliver ++ posts.map QItem.op) st 0 [] with
+    match runQueue su reacts fuel (o.deliveries.map QItem.deliver) st 0 [] with
     | none => none
-    | some (st', _, seen) => some { st := st', log := o.log, deliveries := seen }
+    | some (st1, k1, seen1) =>
+      match runQueue su reacts fuel (posts.map QItem.op) st1 k1 seen1 with
+      | none => none
+      | some (st2, _, seen2) => some { st := st2, log := o.log, deliveries := seen2, preCount := seen1.length }
 
 end BEI
